@@ -115,6 +115,7 @@ def main(mod, argv):
         if a.replay:
             lines, m0 = C.load_case(a.replay)
             m = dict(getattr(mod, "replay_meta", lambda l: {})(lines)); m.update(m0); m["replay"] = a.replay
+            if hasattr(mod, "insize"): m["insize"] = mod.insize(lines)
             cw.add(lines, m)
         else:
             # known-finding witnesses and the regression corpus run first
@@ -123,8 +124,10 @@ def main(mod, argv):
                 lines, m0 = C.load_case(w)
                 m = dict(getattr(mod, "replay_meta", lambda l: {})(lines)); m.update(m0); m.update(e.get("meta", {}))
                 m.update(finding_witness=e["id"], kind=e["kind"])
+                if hasattr(mod, "insize"): m["insize"] = mod.insize(lines)
                 cw.add(lines, m, name="finding-" + e["id"])
             for (lines, meta) in mod.generate(ctx):
+                if hasattr(mod, "insize"): meta["insize"] = mod.insize(lines)
                 cw.add(lines, meta)
                 fam = meta.get("family", "?")
                 dist[fam] = dist.get(fam, 0) + 1
@@ -213,6 +216,8 @@ def main(mod, argv):
             what = (broken[0].splitlines()[0] if broken else "model and implementation differ: " + first[2].text)[:300]
             res.violation(rp, what, no_input=True)
     res.cov["correspondence_mismatches"] = len(mismatches)
+    res.cov["programs"] = res.cov["traces_validated_against_impl"]     # model/implementation runs compared
+    res.cov["disagreements_checked"] = len(mismatches)
     res.cov["broken"] = [b[:300] for b in broken]
     C.log(f"{prop} {tier} seed={seed}: obligations {res.cov['discharged']}/{res.cov['obligations']}, cases {res.cov['evaluations']}, "
           f"mismatches {len(mismatches)}, violations {len(res.violations)}, known {len(res.known)}, {time.time()-res.t0:.0f}s")
